@@ -1445,6 +1445,15 @@ func (e *Engine) blockCurrent(why string) {
 	st.curGor.blocked = true
 	st.curGor.blockedAt = st.progress
 	i := e.pickNext()
+	if i < 0 && e.fireTimer() {
+		// everybody waits: time passes, a timer goes off
+		i = e.pickNext()
+		if i < 0 {
+			// it is the running goroutine that waits for it: retry the instruction
+			st.curGor.blocked = false
+			return
+		}
+	}
 	if i < 0 {
 		if st.curGor.isMain {
 			e.blocked(why)
@@ -1464,6 +1473,9 @@ func (e *Engine) parkCurrent(why string) {
 	st.events = append(st.events, "parked:"+st.thread)
 	st.curGor.parked = true
 	i := e.pickNext()
+	for i < 0 && e.fireTimer() {
+		i = e.pickNext()
+	}
 	if i < 0 {
 		e.blocked("all goroutines blocked: " + why)
 	}
